@@ -1476,6 +1476,8 @@ type iterScanner struct {
 }
 
 func (is *iterScanner) Next() bool {
+	// the row staged by the previous call is valid only until this call
+	is.valid = false
 	iter := is.iter
 	if iter.err != nil {
 		return false
